@@ -45,7 +45,7 @@ class C07(Prop):
     extractors = ["E2"]
     all_branches = (["set:gate", "set:cache", "set:agents", "nest:2", "nest:3", "nest:4", "nest:all-issued", "energy:refused", "k:circuit_open", "k:cache_hit", "k:agent_exc", "k:gated_success", "k:gated_neither",
                      "k:raised", "token", "cache:shrunk", "cache:replace-or-evict", "set:onblock", "set:onpermit", "hook:block",
-                     "hook:permit", "hook:raised", "exc:unprintable", "k:aborted"]
+                     "hook:permit", "hook:raised", "exc:unprintable", "k:aborted", "set:silent"]
                     + [f"act:{a}" for a in ("SUCCESS", "BLOCKED", "FAILURE", "SKIPPED", "ERROR")])
     assumptions = [
         "agents return an ActionProtein whose action_type is a str and whose payload is str()-able, or raise an Exception "
@@ -105,6 +105,8 @@ class C07(Prop):
             budget = rng.choice(BUDGETS) if rng.random() < 0.45 else None
             lines = [cfg_line(gate, breaker, rng.choice([1, 2, 3, 5]), rng.choice([0, 1_000_000, 60_000_000]), cache, ttl,
                               budget)]
+            if rng.random() < 0.15:
+                lines.append("set silent 0")     # console output on (results, cache hits, breaker transitions are printed)
             if rng.random() < 0.2:      # callbacks (they may raise) set on the live loop before the first request
                 lines += [f"set onblock {rng.choice(HOOKS)}", f"set onpermit {rng.choice(HOOKS)}"]
             npr = rng.choice([1, 2, 3, 5])
